@@ -75,8 +75,12 @@ var homeCounter int
 var homeMu sync.Mutex
 
 func newApp(db dbm.DB, home string) *app.Mhub2 {
-	return app.NewMhub2App(log.NewNopLogger(), db, nil, true, map[int64]bool{}, home, 0,
-		app.MakeEncodingConfig(), emptyOpts{}, baseapp.SetMinGasPrices(""))
+	var lg log.Logger = log.NewNopLogger()
+	if os.Getenv("MHUBSIM_HUBLOG") != "" { // debugging aid: the hub's own error log on stderr
+		lg = log.NewFilter(log.NewTMLogger(log.NewSyncWriter(os.Stderr)), log.AllowError())
+	}
+	return app.NewMhub2App(lg, db, nil, true, map[int64]bool{}, home, 0,
+		app.MakeEncodingConfig(), emptyOpts{}, baseapp.SetMinGasPrices(""), baseapp.SetTrace(os.Getenv("MHUBSIM_HUBLOG") != ""))
 }
 
 // NewNode creates a fresh replica on an empty MemDB.
